@@ -1,5 +1,7 @@
 package replication
 
+import "sync/atomic"
+
 // GetReplicaInfo returns information about all connected replicas
 func (p *Primary) GetReplicaInfo() []ReplicationNodeInfo {
 	p.mu.RLock()
@@ -29,7 +31,5 @@ func (p *Primary) GetReplicaInfo() []ReplicationNodeInfo {
 
 // GetLastSequence returns the highest sequence number that has been synced to disk
 func (p *Primary) GetLastSequence() uint64 {
-	p.mu.RLock()
-	defer p.mu.RUnlock()
-	return p.lastSyncedSeq
+	return atomic.LoadUint64(&p.lastSyncedSeq)
 }
